@@ -368,7 +368,7 @@ func c06Run1(c c06Case) (v vVerdict) {
 				select {
 				case f := <-sc.queuedRequests:
 					f()
-				case <-time.After(300 * time.Millisecond):
+				case <-time.After(20 * time.Second):
 				}
 			}()
 			var ok bool
